@@ -807,5 +807,6 @@ func main() {
 		}
 	}
 	_ = strconv.Itoa
-	fmt.Printf("extracted %d files from %s\n", len(files), repo)
+	genMsgs(*out)
+	fmt.Printf("extracted tables from %s\n", repo)
 }
